@@ -1511,6 +1511,7 @@ type cxG struct {
 	big    bool // measure the allocation of every single call (inputs of several KiB)
 	worst  uint64
 	worstN string
+	slow   time.Duration // a guarded call slower than this — twice — counts as runaway (0: 2 s)
 }
 
 func (g *cxG) run(name string, repro func() string, f func()) {
@@ -1533,7 +1534,11 @@ func (g *cxG) run(name string, repro func() string, f func()) {
 			g.panics++
 			g.c.Fail("C18.panic."+name, repro(), "panic: %v", r)
 		}
-		if d := time.Since(t0); d > 2*time.Second {
+		lim := g.slow
+		if lim == 0 {
+			lim = 2 * time.Second
+		}
+		if d := time.Since(t0); d > lim {
 			// wall time on a shared machine is noisy: a call counts as runaway only if it is slow again
 			// when repeated on its own
 			t1 := time.Now()
@@ -1541,7 +1546,7 @@ func (g *cxG) run(name string, repro func() string, f func()) {
 				defer func() { _ = recover() }()
 				f()
 			}()
-			if d2 := time.Since(t1); d2 > 2*time.Second {
+			if d2 := time.Since(t1); d2 > lim {
 				g.c.Fail("C18.slow."+name, repro(), "one call took %v, and %v when repeated", d, d2)
 			}
 		}
@@ -2089,6 +2094,11 @@ var cxNearMissBases = []string{"2024-02-29", "20240229", "MCMXCIV", "mmxxiv", "v
 // choice of entry points (string and []byte, one- and two-argument, UnmarshalText) instead of all of them.
 func cxHugeInputs(c *Ctx, g *cxG) {
 	const n = 2<<20 + 1
+	// a 2 MiB input legitimately takes up to about half a second per regexp-based entry point on an idle machine;
+	// on a loaded one many times that: runaway here means more than 20 s, twice in a row
+	oldSlow := g.slow
+	g.slow = 20 * time.Second
+	defer func() { g.slow = oldSlow }()
 	slowPick := map[string]bool{"DefaultParser[string] r0": true, "Valid[[]byte] r1": true, "Parse[string]": true, "Default[[]byte]": true, "Compare(ok, in)": true, "UnmarshalText": true}
 	for _, typ := range cxTypes {
 		entries, tooLong, set, _ := cxEntries(typ)
@@ -2106,10 +2116,9 @@ func cxHugeInputs(c *Ctx, g *cxG) {
 				var err error
 				restore := set(L)
 				a0 := cxTotalAlloc()
-				t0 := time.Now()
 				name := fmt.Sprintf("%s.%s", typ, e.name)
 				g.run(name, func() string { return fmt.Sprintf("%s: %d-byte input, limit %d", name, n, L) }, func() { err = e.call(shaped) })
-				dt, alloc := time.Since(t0), cxTotalAlloc()-a0
+				alloc := cxTotalAlloc() - a0
 				restore()
 				c.Evals++
 				repro := fmt.Sprintf("%s on a grammatical %d-byte text under MaxInputLength %d", name, n, L)
@@ -2121,9 +2130,7 @@ func cxHugeInputs(c *Ctx, g *cxG) {
 				if alloc > 96*n {
 					c.Fail("C18.alloc."+typ+".huge", repro, "allocated %d bytes for %d input bytes", alloc, n)
 				}
-				if dt > 3*time.Second {
-					c.Fail("C18.slow."+typ+".huge", repro, "took %v", dt)
-				}
+				// (time: the guarded call above counts as runaway only if it needs more than g.slow twice in a row)
 			}
 		}
 		c.NT(1)
